@@ -83,6 +83,8 @@ theorem applyRes_inProg (cfg : Cfg) (pol : Policy) (step : Nat) (tickEv : Ev) (d
   | addCollected buf ev =>
     simp only [applyRes]
     split
+    · simp
+    split
     · refine ⟨?_, rfl⟩
       intro s; simp only [State.set]; split
       · rename_i h; subst h; rfl
